@@ -47,6 +47,10 @@ fn build(seed: u64) -> (Life, amiquip_simrt::ChoiceStream) {
     life.gen.broker.mux_burst_max = 1;
     life.gen.broker.body_max = life.gen.broker.body_max.min(600);
     life.gen.sched.hang_after_ns = 30_000_000_000;
+    // a quarter of the sessions end by dropping the Connection instead of calling close()
+    if cs.choose("c05_close_by_drop", 4) == 0 {
+        life.gen.plan.close = crate::session::CloseKind::Drop;
+    }
     (life, cs)
 }
 
@@ -159,6 +163,9 @@ impl Scenario for C05 {
             l2.gen.broker.mux_burst_max = 1;
             l2.gen.broker.body_max = l2.gen.broker.body_max.min(600);
             l2.gen.sched.hang_after_ns = 30_000_000_000;
+            if r.choose("c05_close_by_drop", 4) == 0 {
+                l2.gen.plan.close = crate::session::CloseKind::Drop;
+            }
             life = l2;
             cs = r;
         }
@@ -206,6 +213,8 @@ impl Scenario for C05 {
             return rep;
         }
         let n = world.net.lock().unwrap();
+        let by_drop = res.hist.conn.iter().any(|c| matches!(c, ConnRec::Close { by_drop: true, .. }));
+        rep.count("c05.closed_by_drop", by_drop as u64);
         let close = res.hist.conn.iter().find_map(|c| if let ConnRec::Close { result, ret, .. } = c { Some((result.clone(), *ret)) } else { None });
         let (close_result, close_ret) = match close {
             Some(x) => x,
@@ -255,11 +264,12 @@ impl Scenario for C05 {
                 v
             }
         };
-        if fired && !allowed.contains(&got) {
+        // a dropped Connection reports nothing: only the release clauses below apply
+        if !by_drop && fired && !allowed.contains(&got) {
             rep.violate("close-result", format!("{}:{}", KIND_NAMES[kind as usize % 8], got.split('(').next().unwrap_or("")), format!("{} at {}: Connection::close returned {} ; allowed for this kind: {:?}", KIND_NAMES[kind as usize % 8], point, got, allowed));
             return rep;
         }
-        if !fired && got != "Ok" {
+        if !by_drop && !fired && got != "Ok" {
             rep.violate("close-result", format!("no-fault:{}", got.split('(').next().unwrap_or("")), format!("the fault never fired, yet close returned {}", got));
             return rep;
         }
